@@ -312,7 +312,7 @@ func (fc *FCtx) execAssign(s *ast.AssignStmt, st *State) {
 // coerce adjusts a value to a static type (mostly a no-op; sets GoT).
 func (fc *FCtx) coerce(v Val, t types.Type) Val {
 	s := fc.U.SortOf(t)
-	if v.S != nil && (v.S.Name == "StoreH" || strings.HasPrefix(v.T, "@writefn:")) {
+	if v.S != nil && (v.S.Name == "StoreH" || v.S.Name == "Iter" || strings.HasPrefix(v.T, "@writefn:")) {
 		v.GoT = t
 		return v
 	}
@@ -500,6 +500,11 @@ func (fc *FCtx) modifiedIn(n ast.Node) loopVars {
 			lv.ghost = true
 			// method calls with pointer receivers on addressable locals may mutate them
 			if sel, ok := x.Fun.(*ast.SelectorExpr); ok {
+				if sel.Sel.Name == "Next" {
+					if fo, ok := info.ObjectOf(sel.Sel).(*types.Func); ok && (strings.HasSuffix(fo.FullName(), "Iterator).Next") || fo.FullName() == "(interface).Next") {
+						add(sel.X)
+					}
+				}
 				if s := info.Selections[sel]; s != nil && s.Kind() == types.MethodVal {
 					if sig, ok := s.Obj().Type().(*types.Signature); ok && sig.Recv() != nil {
 						if _, isPtr := sig.Recv().Type().(*types.Pointer); isPtr {
@@ -522,6 +527,13 @@ func (fc *FCtx) havoc(st *State, lv loopVars) {
 		old, ok := st.vars[o]
 		if !ok {
 			continue // declared inside the loop
+		}
+		if old.S.Name == "Iter" {
+			// an iterator keeps its identity; only its position advances
+			p := fc.U.Fresh(o.Name()+"_pos", SInt)
+			st.vars[o] = Val{T: fmt.Sprintf("(mk_Iter (Iter_id %s) %s)", old.T, p), S: old.S, GoT: old.GoT}
+			st.assume(fmt.Sprintf("(<= 0 %s)", p))
+			continue
 		}
 		n := fc.U.Fresh(o.Name(), old.S)
 		nv := Val{T: n, S: old.S, GoT: o.Type()}
@@ -807,6 +819,14 @@ func (fc *FCtx) execDefer(s *ast.DeferStmt, st *State) *Flow {
 	if isDroppedCall(name) || name == "(cosmossdk.io/store/types.Iterator).Close" || name == "(github.com/cosmos/cosmos-db.Iterator).Close" {
 		fc.drop("defer " + name)
 		return single(st)
+	}
+	if sel, ok := s.Call.Fun.(*ast.SelectorExpr); ok && sel.Sel.Name == "Close" && len(s.Call.Args) == 0 {
+		if id, ok := sel.X.(*ast.Ident); ok {
+			if v, ok := st.vars[fc.info().ObjectOf(id)]; ok && v.S != nil && v.S.Name == "Iter" {
+				fc.drop("defer iterator.Close()")
+				return single(st)
+			}
+		}
 	}
 	if lit, ok := s.Call.Fun.(*ast.FuncLit); ok && containsRecover(lit.Body) {
 		if len(fc.frames) != 1 || fc.recoverLit != nil {
